@@ -1,7 +1,10 @@
 use quote::ToTokens;
 use syn::{spanned::Spanned, Expr, Lit, Meta, Type};
 
-use super::path::path_to_string;
+use super::{
+    path::{path_to_string, ungroup},
+    r#type::ungroup_type,
+};
 
 const INT_TYPES: [&str; 12] =
     ["u8", "u16", "u32", "u64", "u128", "usize", "i8", "i16", "i32", "i64", "i128", "isize"];
@@ -22,7 +25,10 @@ pub(crate) fn meta_2_expr(meta: &Meta) -> syn::Result<Expr> {
 
 #[inline]
 pub(crate) fn auto_adjust_expr(expr: Expr, ty: Option<&Type>) -> Expr {
-    match &expr {
+    // a literal or a type that comes out of a `macro_rules` fragment is wrapped in an invisible group
+    let ty = ty.map(ungroup_type);
+
+    match ungroup(&expr) {
         Expr::Lit(lit) => {
             match &lit.lit {
                 Lit::Int(lit) => {
